@@ -256,9 +256,17 @@ static int real_main(int argc, char** argv)
                         break;
                     }
                 Plan small = (no_shrink || nviol >= 2) ? failing : shrink_plan(failing, cls, ro, 200, &used);
+                // what is verified is what the replay file will contain: the plan after a JSON round trip
+                auto roundtrip = [](const Plan& q) { return Plan::from_json(Json::parse(q.to_json().dump())); };
+                small = roundtrip(small);
                 RunOutput sout = run_plan(small, ro);
-                if (!sout.has_class(cls)) { small = failing; sout = run_plan(failing, ro); }
-                if (!sout.has_class(cls)) { small = p; sout = out; }
+                if (!sout.has_class(cls)) { small = roundtrip(failing); sout = run_plan(small, ro); }
+                if (!sout.has_class(cls))
+                {
+                    engine_errors++;
+                    std::printf("{\"type\":\"engine_error\",\"index\":%ld,\"msg\":\"violation %s is lost by the replay-file round trip\"}\n", idx, cls.c_str());
+                    continue;
+                }
                 char tag[64];
                 std::snprintf(tag, sizeof tag, "%llu-%ld-%zx", (unsigned long long) seed, idx, std::hash<std::string>()(cls) & 0xffff);
                 std::string path = write_replay(replay_dir, small, sout, cls, tag);
